@@ -103,7 +103,10 @@ fn cram_indented(indent: &str, from: &str) -> String {
     if from.is_empty() {
         "".into()
     } else {
-        from.trim_end()
+        // only the final newline goes: trailing blank or whitespace-only lines
+        // and trailing spaces of the last line are part of the output
+        from.strip_suffix('\n')
+            .unwrap_or(from)
             .split('\n')
             .map(|line| format!("{}{}", indent, line))
             .collect::<Vec<_>>()
